@@ -250,6 +250,7 @@ def run(chk):
         sub = report.Check("C04", chk.tier)
         C10.UNITS_ON[0] = __import__("program").units_enabled(prog)
         C10.check_interleaved(sub, prog, sim, member)
+        C10.check_stream(sub, prog, sim, member)
         chk.evaluated(1, nontrivial=(key, "member-events", member))
         for v in sub.violations:
             rule = v["rule"] if v["rule"] in ("analysis-incomplete",) else "C04.siblings"
